@@ -409,6 +409,12 @@ func (g *G) field() *influxql.Field {
 		k = 5 + g.Rg.Intn(2)
 	}
 	switch {
+	case g.Opt.Odd && g.Rg.P(0.15):
+		// the time column written as a field (any number of times, with or without alias)
+		v := &influxql.VarRef{Val: "time"}
+		g.segs[v] = []string{"time"}
+		f.Expr = v
+		g.feat("field.time")
 	case k == 0:
 		f.Expr = g.Wildcard()
 		g.feat("field.wildcard")
